@@ -1,8 +1,192 @@
 import CM.Lib.Wire
-/-! Driver handler for C16 (stub: not built yet). -/
-namespace CM.Drv.C16
-open CM.Wire
+import CM.Model.Solvers
+/-!
+Driver handler for C16: trace validation. One history per line,
 
-def handle (_args _impl : List String) : String := bad
+  trace <p0> <ev>* => <obs after ev 1> ; <obs after ev 2> ; …
+
+  ev   P:<id>:<h|a|d>:<addr>:<key>:<rname>:<rval>:<store>:<cert>:<o|u|e>:<prov>
+       C:<id>:<h|a|d>:<addr>:<key>:<rname>:<rval>:<cancelled>:<del>:<prov>
+  obs  A=<addr>:<count|x>:<listener>,…  T=<token keys>  M=<memory keys>  R=<remembered name.value>  D=<provider name.value>
+
+The model (`CM.Solvers.step`) must produce exactly the observed sequence; the executable
+specification judges the *implementation's* observations against the set of pending
+challenges, which it computes from the events alone.
+-/
+namespace CM.Drv.C16
+open CM.Wire CM.Solvers
+
+def allSome {α : Type} (l : List (Option α)) : Option (List α) :=
+  l.foldr (fun x acc => match x, acc with
+    | some a, some r => some (a :: r)
+    | _, _ => none) (some [])
+
+def decTyp : String → Option Typ
+  | "h" => some .http | "a" => some .alpn | "d" => some .dns | _ => none
+
+def decBind : String → Option Bind
+  | "o" => some .ok | "u" => some .inUse | "e" => some .err | _ => none
+
+def decEv (tok : String) : Option Ev :=
+  match tok.splitOn ":" with
+  | ["P", id, t, a, k, rn, rv, st, ce, b, pr] =>
+    match id.toNat?, decTyp t, a.toNat?, k.toNat?, rn.toNat?, rv.toNat?, decBind b with
+    | some id, some t, some a, some k, some rn, some rv, some b =>
+      some (.present { id := id, typ := t, addr := a, key := k, rname := rn, rval := rv }
+              { store := st = "1", cert := ce = "1", bind := b, prov := pr = "1" })
+    | _, _, _, _, _, _, _ => none
+  | ["C", id, t, a, k, rn, rv, ca, de, pr] =>
+    match id.toNat?, decTyp t, a.toNat?, k.toNat?, rn.toNat?, rv.toNat? with
+    | some id, some t, some a, some k, some rn, some rv =>
+      some (.cleanUp { id := id, typ := t, addr := a, key := k, rname := rn, rval := rv }
+              { cancelled := ca = "1", del := de = "1", prov := pr = "1" })
+    | _, _, _, _, _, _ => none
+  | _ => none
+
+def decPair (tok : String) : Option (Nat × Nat) :=
+  match tok.splitOn "." with
+  | [a, b] => match a.toNat?, b.toNat? with
+    | some a, some b => some (a, b)
+    | _, _ => none
+  | _ => none
+
+def decPairs (tok : String) : Option (List (Nat × Nat)) :=
+  if tok = "~" then some [] else allSome ((tok.splitOn ",").map decPair)
+
+def decNats (tok : String) : Option (List Nat) :=
+  if tok = "~" then some [] else allSome ((tok.splitOn ",").map String.toNat?)
+
+def sortNat (l : List Nat) : List Nat := (l.toArray.qsort (· < ·)).toList
+def sortPairs (l : List (Nat × Nat)) : List (Nat × Nat) :=
+  (l.toArray.qsort (fun a b => a.1 < b.1 || (a.1 == b.1 && a.2 < b.2))).toList
+
+def joinOr (l : List String) : String := if l = [] then "~" else String.intercalate "," l
+def showPairs (l : List (Nat × Nat)) : String :=
+  joinOr ((sortPairs l).map (fun p => toString p.1 ++ "." ++ toString p.2))
+
+def evCh : Ev → Ch
+  | .present c _ => c
+  | .cleanUp c _ => c
+
+/-- the model's observables, over the addresses and keys the history mentions -/
+def showState (addrs keys : List Nat) (s : State) : String :=
+  "A=" ++ joinOr (addrs.map (fun a => toString a ++ ":" ++
+      (if s.ent a then toString (s.cnt a) else "x") ++ ":" ++ (if s.lis a then "1" else "0"))) ++
+  " T=" ++ joinOr ((keys.filter s.tok).map toString) ++
+  " M=" ++ joinOr ((keys.filter s.mem).map toString) ++
+  " R=" ++ showPairs s.recMem ++ " D=" ++ showPairs s.provider
+
+structure Obs where
+  addrs : List (Nat × Option Int × Bool)
+  toks : List Nat
+  mems : List Nat
+  recs : List (Nat × Nat)
+  prov : List (Nat × Nat)
+
+def decAddr (tok : String) : Option (Nat × Option Int × Bool) :=
+  match tok.splitOn ":" with
+  | [a, c, l] => match a.toNat? with
+    | some a => if c = "x" then some (a, none, l = "1") else (c.toInt?).map (fun c => (a, some c, l = "1"))
+    | none => none
+  | _ => none
+
+def field (pre : String) (tok : String) : Option String :=
+  if tok.startsWith pre then some ((tok.drop pre.length).toString) else none
+
+def decObs (toks : List String) : Option Obs :=
+  match toks with
+  | [a, t, m, r, d] => do
+    let a ← field "A=" a
+    let t ← field "T=" t
+    let m ← field "M=" m
+    let r ← field "R=" r
+    let d ← field "D=" d
+    let addrs ← if a = "~" then some [] else allSome ((a.splitOn ",").map decAddr)
+    pure { addrs := addrs, toks := ← decNats t, mems := ← decNats m, recs := ← decPairs r, prov := ← decPairs d }
+  | _ => none
+
+/-- split the implementation's tokens at ";" -/
+def splitSteps (toks : List String) : List (List String) :=
+  let r := toks.foldl (fun (acc : List (List String) × List String) t =>
+    if t = ";" then (acc.2.reverse :: acc.1, []) else (acc.1, t :: acc.2)) ([], [])
+  (r.2.reverse :: r.1).reverse
+
+/-- ghost of the specification: pending challenges, and whether a delete fault occurred -/
+structure Ghost where
+  active : List Ch := []
+  delFault : Bool := false
+  provFault : Bool := false
+  prevLis : List (Nat × Bool) := []
+
+def opensB (c : Ch) (r : PRes) : Bool :=
+  match c.typ with
+  | .http => r.bind == .ok
+  | .alpn => r.cert && r.bind == .ok
+  | .dns => false
+
+/-- executable specification of one step: judge the observation `o` made after event `e` -/
+def specStep (p0 : List (Nat × Nat)) (g : Ghost) (e : Ev) (o : Obs) : Ghost × String :=
+  let active := match e with
+    | .present c _ => c :: g.active
+    | .cleanUp c _ => g.active.erase c
+  let g' : Ghost := { active := active
+                      delFault := g.delFault || (match e with | .cleanUp _ r => !r.del | _ => false)
+                      provFault := g.provFault || (match e with | .cleanUp _ r => !r.prov | _ => false)
+                      prevLis := o.addrs.map (fun (a, _, l) => (a, l)) }
+  let users (a : Nat) : Nat := active.countP (uses a)
+  let verdict : String :=
+    if o.addrs.any (fun (a, c, _) => match c with
+        | some n => n != (users a : Int)
+        | none => users a != 0) then "bad:count-differs-from-pending"
+    else if o.addrs.any (fun (a, c, _) => c.isSome && users a == 0) then "bad:listener-entry-left"
+    else if o.addrs.any (fun (a, _, l) => l && users a == 0) then "bad:listener-open-without-challenge"
+    else if o.addrs.any (fun (a, _, l) => !l && users a != 0 && g.prevLis.lookup a == some true)
+      then "bad:listener-closed-while-challenge-remains"
+    else if (match e with
+        | .present c r => opensB c r && !(o.addrs.any (fun (a, _, l) => a == c.addr && l))
+        | _ => false) then "bad:listener-not-opened"
+    else if o.mems.any (fun k => !(active.any (fun c => c.key == k))) then "bad:memory-entry-left"
+    else if !g'.delFault && o.toks.any (fun k => !(active.any (fun c => c.typ.listens && c.key == k)))
+      then "bad:token-file-left"
+    else if o.recs.any (fun p => decide (o.recs.count p > active.countP (hasRec p))) then "bad:record-memory-left"
+    else if !g'.provFault && sortPairs o.prov != sortPairs (p0 ++ o.recs) then
+      (if active.isEmpty then "bad:provider-records-differ-after-last-cleanup" else "bad:provider-records-differ")
+    else "ok"
+  (g', verdict)
+
+def handle (args impl : List String) : String :=
+  match args with
+  | "trace" :: p0 :: evs =>
+    match decPairs p0, allSome (evs.map decEv) with
+    | some p0, some evs =>
+      let addrs := sortNat ((evs.filterMap (fun e => if (evCh e).typ.listens then some (evCh e).addr else none)).eraseDups)
+      let keys := sortNat ((evs.map (fun e => (evCh e).key)).eraseDups)
+      -- the model's run
+      let (outs, _, okRun) := evs.foldl (fun (acc : List String × State × Bool) e =>
+        let (outs, s, ok) := acc
+        if !ok then acc else
+        match step s e with
+        | some s' => (showState addrs keys s' :: outs, s', true)
+        | none => (outs, s, false)) ([], State.init p0, true)
+      if !okRun then reply "undisciplined-history" "bad-op" "bad-op" else
+      let model := String.intercalate " ; " outs.reverse
+      -- the specification on the implementation's observations
+      let steps := if impl = [] then [] else splitSteps impl
+      let spec :=
+        if steps.length != evs.length then "bad-op"
+        else
+          let r := (evs.zip steps).foldl (fun (acc : Ghost × String) (e, st) =>
+            if acc.2 != "ok" then acc else
+            match decObs st with
+            | some o => specStep p0 acc.1 e o
+            | none => (acc.1, "bad-op")) (({} : Ghost), "ok")
+          r.2
+      let nP := evs.countP (fun e => match e with | .present _ _ => true | _ => false)
+      let faults := evs.any (fun e => match e with
+        | .present _ r => !r.store || !r.cert || r.bind != .ok || !r.prov
+        | .cleanUp _ r => r.cancelled || !r.del || !r.prov)
+      reply model spec ("n" ++ toString evs.length ++ "p" ++ toString nP ++ (if faults then "f" else ""))
+    | _, _ => bad
+  | _ => bad
 
 end CM.Drv.C16
